@@ -15,6 +15,7 @@ from sigma.exceptions import (
 )
 from sigma.types import (
     SigmaBool,
+    SigmaExpansion,
     SigmaNull,
     SigmaNumber,
     SigmaString,
@@ -390,25 +391,41 @@ class ValueTransformation(DetectionItemTransformation):
         except IndexError:  # No type annotation found
             self.value_types = None
 
-    def apply_detection_item(self, detection_item: SigmaDetectionItem) -> SigmaDetectionItem | None:
-        """Call apply_value for each value and integrate results into value list."""
-        results = []
+    def _apply_values(
+        self, field: str | None, values: list[SigmaType]
+    ) -> tuple[list[SigmaType], bool]:
+        """Call apply_value for each value and integrate results into a new value list."""
+        results: list[SigmaType] = []
         modified = False
-        for value in detection_item.value:
+        for value in values:
+            res = None
             if self.value_types is None or isinstance(
                 value, self.value_types
             ):  # run replacement if no type annotation is defined or matching to type of value
-                res = self.apply_value(detection_item.field, value)
-                if res is None:  # no value returned: drop value
-                    results.append(value)
-                elif isinstance(res, Iterable) and not isinstance(res, SigmaType):
-                    results.extend(res)
+                res = self.apply_value(field, value)
+            if res is None and isinstance(value, SigmaExpansion):
+                # The alternatives a modifier (e.g. windash) expanded a value into are values of
+                # their own: transform them and keep them together, if the transformation didn't
+                # handle the expansion as a whole.
+                expanded, expanded_modified = self._apply_values(field, value.values)
+                if expanded_modified:
+                    results.append(SigmaExpansion(expanded))
                     modified = True
                 else:
-                    results.append(res)
-                    modified = True
-            else:  # pass original value if type doesn't matches to apply_value argument type annotation
+                    results.append(value)
+            elif res is None:  # no value returned or type doesn't match: pass original value
                 results.append(value)
+            elif isinstance(res, Iterable) and not isinstance(res, SigmaType):
+                results.extend(res)
+                modified = True
+            else:
+                results.append(res)
+                modified = True
+        return results, modified
+
+    def apply_detection_item(self, detection_item: SigmaDetectionItem) -> SigmaDetectionItem | None:
+        """Call apply_value for each value and integrate results into value list."""
+        results, modified = self._apply_values(detection_item.field, detection_item.value)
         if modified:
             detection_item.value = results
             return detection_item
